@@ -9,7 +9,13 @@ EXTRA = {'C02-viterbi-star-unit-cycle': ['C02', 'C08', 'C09'], 'C09-viterbi-star
          'C04-viterbi-single-pointer-raw-argmax': ['C04', 'C07'], 'C12-unsqueeze-order-by-variable': ['C12', 'C07'], 'C12-early-exit-rhs-count': ['C12', 'C02'],
          'C01-scc-stale-onstack': ['C01', 'C19'], 'C05-decomposition-forest-per-component': ['C05', 'C10'], 'C11-jlog-stale-rule-list': ['C11', 'C03'],
          'C11-linear-jacobian-overwrite': ['C11', 'C02'], 'C08-broadcast-new-axis-order': ['C08', 'C06'], 'C08-sumaxis-antiunify-after': ['C08', 'C06'],
-         'C03-transpose-before-flatten': ['C03', 'C09'], 'C10-quickbb-sep-filter-before-reduction': ['C10'], 'C04-derive-skip-external-nodes': ['C04', 'C15']}
+         'C03-transpose-before-flatten': ['C03', 'C09'], 'C10-quickbb-sep-filter-before-reduction': ['C10'], 'C04-derive-skip-external-nodes': ['C04', 'C15'],
+         'C04-backptr-output-axis-movedim': ['C04', 'C07'], 'C02-stale-lu-pivots': ['C02', 'C09'], 'C15-remove-edge-prunes-orphans': ['C15', 'C16'],
+         'C15-stale-graph-type-cache': ['C15', 'C16'], 'C14-iter-unit-axis-drops-default': ['C14', 'C06'], 'C12-viterbi-skip-dead-rule-pointer': ['C12', 'C04'],
+         'C12-add-rule-dedup-by-value': ['C12', 'C16'], 'C11-unsorted-unsqueeze-index': ['C11', 'C02', 'C07'], 'C11-stack-unify-in-assert': ['C11', 'C06'],
+         'C09-stale-diagonal-set': ['C09', 'C02'], 'C03-multi-mv-transpose-before-flatten': ['C03', 'C09'], 'C01-viterbi-zeros-not-overridden': ['C01', 'C08'],
+         'C13-allclose-freshen-discarded': ['C13', 'C06'], 'C13-equal-numel-shape-guard': ['C13', 'C06'], 'C19-nonterminal-graph-memo-by-counts': ['C19', 'C18'],
+         'C16-add-factor-early-label': ['C16', 'C20'], 'C08-nan-default-not-annihilated': ['C08', 'C06']}
 res_path = os.path.join(V, 'seeded', 'RESULTS.json')
 results = json.load(open(res_path)) if os.path.exists(res_path) else {}
 names = sorted(os.path.basename(d) for d in glob.glob(os.path.join(V, 'seeded', '*')) if os.path.isdir(d))
